@@ -361,6 +361,30 @@ pub open spec fn member_identity(v: MlsView, i: LeafNodeIndex) -> Option<PublicK
     { Some(pk_from_bytes(cred_identity(mls_member_credential(v, i)))) } else { None }
 }
 
+// ---- application messages (assumed OpenMLS / nostr JSON API)
+#[verifier::external_body]
+pub struct ApplicationMessage { _p: u8 }
+impl ApplicationMessage {
+    pub uninterp spec fn bytes(&self) -> Seq<u8>;
+    #[verifier::external_body]
+    pub fn into_bytes(self) -> (r: Vec<u8>) ensures r@ == self.bytes() { unimplemented!() }
+}
+// serde_json decoding of the rumor (uninterpreted; nostr's JsonUtil::from_json)
+pub uninterp spec fn rumor_json_ok(b: Seq<u8>) -> bool;
+pub uninterp spec fn rumor_of_json(b: Seq<u8>) -> UnsignedEvent;
+impl UnsignedEvent {
+    // Ok iff no id is set or the set id is the NIP-01 hash of the fields
+    #[verifier::external_body]
+    pub fn verify_id(&self) -> (r: Result<(), event::Error>)
+        ensures (r is Ok) == (self.id is None || self.id->Some_0 == rumor_hash(*self)),
+    { unimplemented!() }
+
+    #[verifier::external_body]
+    pub fn from_json(bytes: Vec<u8>) -> (r: Result<UnsignedEvent, event::Error>)
+        ensures (r is Ok) == rumor_json_ok(bytes@), r is Ok ==> r->Ok_0 == rumor_of_json(bytes@)
+    { unimplemented!() }
+}
+
 // ---- proposals inside a staged commit (assumed OpenMLS API; iterators modelled as slices)
 impl Clone for LeafNode { #[verifier::external_body] fn clone(&self) -> (r: Self) ensures r == *self { unimplemented!() } }
 pub uninterp spec fn leaf_credential(l: LeafNode) -> Credential;
@@ -390,20 +414,7 @@ pub enum Proposal {
     SelfRemove,
     Custom(Box<OtherProposal>),
 }
-pub struct QueuedUpdateProposal { pub up: UpdateProposal, pub snd: Sender }
-impl QueuedUpdateProposal {
-    pub fn update_proposal(&self) -> (r: &UpdateProposal) ensures *r == self.up { &self.up }
-    pub fn sender(&self) -> (r: &Sender) ensures *r == self.snd { &self.snd }
-}
-impl StagedCommit {
-    pub uninterp spec fn ups(&self) -> Seq<QueuedUpdateProposal>;
-    pub uninterp spec fn path_leaf(&self) -> Option<LeafNode>;
-    // real: an iterator over the queued Update proposals
-    #[verifier::external_body]
-    pub fn update_proposals(&self) -> (r: &Vec<QueuedUpdateProposal>) ensures r@ == self.ups() { unimplemented!() }
-    #[verifier::external_body]
-    pub fn update_path_leaf_node(&self) -> (r: Option<&LeafNode>) ensures (r is Some) == (self.path_leaf() is Some), r is Some ==> *r->Some_0 == self.path_leaf()->Some_0 { unimplemented!() }
-}
+// (proposal iterators: see mls_proposals_vec.rs / mls_proposals_iter.rs, chosen per unit)
 
 pub struct MdkProvider<Storage: MdkStorageProvider> {
     pub crypto: RustCrypto,
@@ -468,6 +479,14 @@ pub use error::Error;
 impl From<BasicCredentialError> for Error {
     #[verifier::external_body]
     fn from(e: BasicCredentialError) -> (r: Error) ensures r == Error::BasicCredential(e) { unimplemented!() }
+}
+impl From<event::Error> for Error {
+    #[verifier::external_body]
+    fn from(e: event::Error) -> (r: Error) ensures r == Error::Event(e) { unimplemented!() }
+}
+impl vstd::std_specs::convert::FromSpecImpl<event::Error> for Error {
+    open spec fn obeys_from_spec() -> bool { true }
+    open spec fn from_spec(e: event::Error) -> Error { Error::Event(e) }
 }
 impl From<ExportSecretError> for Error {
     #[verifier::external_body]
